@@ -335,11 +335,17 @@ def c07_strctx(cx):
         if name in ("KwmStr", "KwmNrStr") and t.chan == 1:
             pending = True
         elif name == "LPAREN" and t.chan == 1 and pending:
-            stack.append(i)
+            stack.append([i, 0])
             pending = False
         elif name == "RPAREN" and t.chan == 1 and stack:
             stack.pop()
-        elif name == "MacroString" and stack:
+        elif name == "LPAREN" and t.chan == 0 and stack:
+            # parentheses of %str text are part of the text; a parenthesis *token* on the default channel
+            # belongs to a call nested in the text, whose arguments are not %str text
+            stack[-1][1] += 1
+        elif name == "RPAREN" and t.chan == 0 and stack and stack[-1][1] > 0:
+            stack[-1][1] -= 1
+        elif name == "MacroString" and stack and stack[-1][1] == 0:
             # directly in a str call only if no other construct was opened since: approximated by
             # the payload rule itself - escapes only exist in str text
             res.add(i)
